@@ -261,6 +261,18 @@ theorem free_obj (be : Backend) (st s0 : State) (e : EavT) (hobj : st.obj = some
       · simp only [Except.ok.injEq] at hs; rw [← hs]; simp
     · simp only [Except.ok.injEq] at hs; rw [← hs]; simp
 
+theorem free_obj_eq (be : Backend) (st s0 : State) (e : EavT) (hobj : st.obj = some e)
+    (hs : eavFree be st = .ok s0) : s0.obj = some { e with result := none } := by
+  unfold eavFree at hs
+  simp only [hobj] at hs
+  split at hs
+  · cases hs
+  · split at hs
+    · split at hs
+      · cases hs
+      · simp only [Except.ok.injEq] at hs; rw [← hs]
+    · simp only [Except.ok.injEq] at hs; rw [← hs]
+
 /-- **every reachable state satisfies the invariant**: a history that starts with `eav_init` on blank memory and
 contains no further `eav_init` / `eav_free` keeps exactly the current record (and idnkit context) allocated -/
 theorem run_inv (be : Backend) (b : Build) : ∀ (ops : List Op) (st st' : State) (outs : List Out),
